@@ -70,6 +70,21 @@ class VMapped(V):
         self.elt = elt
         self.frame = frame
 
+    conds: list = ()
+    pred = None
+
+    def cond_of(self, ip, x):
+        """conjunction of the generator's `if` clauses at x (pure expressions)"""
+        f2 = Frame(self.frame.finfo, self.frame, cls=self.frame.cls)
+        f2.vars[self.var] = x
+        saved = ip.spec_mode
+        ip.spec_mode = True
+        try:
+            out = [_b(ip.truth(ip.eval(c, f2))) for c in self.conds]
+        finally:
+            ip.spec_mode = saved
+        return z3.And(*out) if out else z3.BoolVal(True)
+
     def image_of(self, ip, x):
         f2 = Frame(self.frame.finfo, self.frame, cls=self.frame.cls)
         f2.vars[self.var] = x
@@ -107,7 +122,8 @@ def loop_handler(ip, s, fr: Frame, it):
     inv = c.loops.get(k) if c is not None else None
     if inv is None:
         raise Unsupported(f"loop #{k} ({header_of(s)}) at line {s.lineno} needs an invariant in the sidecar")
-    if inv.header != header_of(s):
+    accepted = (inv.header,) if isinstance(inv.header, str) else tuple(inv.header)
+    if header_of(s) not in accepted:
         raise Unsupported(f"sidecar out of date: loop #{k} header is `{header_of(s)}`, sidecar has `{inv.header}`")
     base_env = dict(ip.verify_env) if getattr(ip, "verify_env", None) else {}
     old = getattr(ip, "verify_old", None)
@@ -125,6 +141,9 @@ def loop_handler(ip, s, fr: Frame, it):
         if idx_name is None:
             idx_name = f"__i{k}"
         fr.vars[idx_name] = VInt(0)
+    rev = False
+    if isinstance(s, ast.For) and isinstance(it, VIter) and it.what == "reversed" and isinstance(it.base, VSeq):
+        it, rev = it.base, True          # reversed(seq): the k-th item is seq[len-1-k]; no copy, no quantifier
     if isinstance(s, ast.For) and isinstance(it, VSeq):
         seq_term = st.heap[(it.ref, "seq")]
         if idx_name is None:
@@ -215,7 +234,7 @@ def loop_handler(ip, s, fr: Frame, it):
         item = ip.do_await(ip.call_function(ip.getattr(it, "__anext__"), [], {}, s), s)
         ip.assign_target(s.target, item, fr)
     else:
-        item = next_item(ip, it, seq_term, fr, idx_name, inv, k)
+        item = next_item(ip, it, seq_term, fr, idx_name, inv, k, rev)
         if visited_name is not None:
             vr = fr.vars[visited_name].ref
             loop_item = item.items[0] if isinstance(item, VTuple) else item     # map items(): the key
@@ -243,8 +262,13 @@ def loop_handler(ip, s, fr: Frame, it):
     raise PathDone()
 
 
-def next_item(ip, it, seq_term, fr, idx_name, inv, k):
+def next_item(ip, it, seq_term, fr, idx_name, inv, k, rev=False):
     st = ip.st
+    if rev:
+        i_t = fr.vars[idx_name].term
+        st.assume(i_t < z3.Length(seq_term))
+        x = seq_term[z3.Length(seq_term) - 1 - i_t]
+        return wrap(it.elem, x) if it.elem[0] != "obj" else VObj(it.elem[1], x)
     if isinstance(it, VArr):
         i_t = fr.vars[idx_name].term
         st.assume(i_t < st.heap[(it.ref, "len")])
@@ -253,8 +277,9 @@ def next_item(ip, it, seq_term, fr, idx_name, inv, k):
     if isinstance(it, VSeq):
         i_t = fr.vars[idx_name].term
         st.assume(i_t < z3.Length(seq_term))
-        # a theorem of sequences the solvers do not find by themselves: s[0:i+1] == s[0:i] ++ [s[i]]
-        st.assume(z3.SubSeq(seq_term, 0, i_t + 1) == z3.Concat(z3.SubSeq(seq_term, 0, i_t), z3.Unit(seq_term[i_t])))
+        if inv.ghost.get("prefix_lemma"):
+            # a theorem of sequences the solvers do not find by themselves: s[0:i+1] == s[0:i] ++ [s[i]]  (opt-in)
+            st.assume(z3.SubSeq(seq_term, 0, i_t + 1) == z3.Concat(z3.SubSeq(seq_term, 0, i_t), z3.Unit(seq_term[i_t])))
         return wrap(it.elem, seq_term[i_t]) if it.elem[0] != "obj" else VObj(it.elem[1], seq_term[i_t])
     if isinstance(it, VIter) and isinstance(it.base, VMap):
         m = it.base
@@ -448,8 +473,53 @@ def m_pop(ip, args, kwargs, node):
     raise_("KeyError")
 
 
+def b_next(ip, args, kwargs, node):
+    """next(generator over a symbolic set[, default]): SOME element that passes the filters (a set has no order), or the
+    default / StopIteration when no element passes"""
+    g = args[0]
+    st = ip.st
+    if isinstance(g, VMapped):
+        S = st.heap[(g.base.ref, "set")]
+        if st.choose(2, "next") == 0:
+            y = st.fresh("picked", sort_of_type(g.base.elem))
+            yv = wrap(g.base.elem, y) if g.base.elem[0] not in ("obj", "symobj") else VObj(g.base.elem[1], y)
+            st.assume(z3.And(z3.Select(S, y), g.cond_of(ip, yv)))
+            if not st.feasible(z3.BoolVal(True)):
+                raise PathInfeasible()
+            return g.image_of(ip, yv)
+        z = st.fresh("z", sort_of_type(g.base.elem))
+        zv = wrap(g.base.elem, z) if g.base.elem[0] not in ("obj", "symobj") else VObj(g.base.elem[1], z)
+        st.assume(z3.ForAll([z], z3.Implies(z3.Select(S, z), z3.Not(g.cond_of(ip, zv)))))
+        if not st.feasible(z3.BoolVal(True)):
+            raise PathInfeasible()
+        if len(args) > 1:
+            return args[1]
+        raise_("StopIteration")
+    from .values import VList
+    if isinstance(g, (VList, VTuple)):
+        items = ip.iterate(g)
+        if items:
+            return items[0]
+        if len(args) > 1:
+            return args[1]
+        raise_("StopIteration")
+    raise Unsupported(f"next({g!r})")
+
+
+def b_reversed(ip, args, kwargs, node):
+    x = args[0]
+    if isinstance(x, VSeq):
+        return VIter("reversed", x)
+    from .values import VList
+    if isinstance(x, (VList, VTuple)):
+        return ip.new_list(list(reversed(ip.iterate(x))))
+    raise Unsupported(f"reversed({x!r})")
+
+
 def install(lib):
     lib["__loop__"] = loop_handler
+    lib["reversed"] = VBuiltin("reversed", b_reversed)
+    lib["next"] = VBuiltin("next", b_next)
     lib["__getitem__"]["map"] = map_getitem
     lib["__setitem__"]["map"] = map_setitem
     meth = lib["__methods__"]
@@ -471,7 +541,15 @@ def _elem_term(ip, s, v):
 
 def seq_append(ip, args, kwargs, node):
     s, x = args
-    ip.st.heap[(s.ref, "seq")] = z3.Concat(_seq(ip, s), z3.Unit(_elem_term(ip, s, x)))
+    cur = _seq(ip, s)
+    xt = _elem_term(ip, s, x)
+    new = z3.Concat(cur, z3.Unit(xt))
+    c = getattr(ip, "current_contract", None)
+    if c is not None and getattr(c, "seq_lemmas", False) and not ip.spec_mode:
+        # the same value, named, with its element-wise description (theorems of Concat/Unit the solvers do not find under
+        # quantifiers): length, the new last element, and every old element in place
+        new = named_append(ip.st, cur, xt, new)
+    ip.st.heap[(s.ref, "seq")] = new
     return VNone
 
 
@@ -522,8 +600,35 @@ def seq_slice(ip, s, lo, hi):
     a = lo.term if lo is not None else z3.IntVal(0)
     b = hi.term if hi is not None else n
     ref = ip.st.new_ref()
-    ip.st.heap[(ref, "seq")] = z3.SubSeq(cur, a, b - a)
+    sub = z3.SubSeq(cur, a, b - a)
+    c = getattr(ip, "current_contract", None)
+    if c is not None and getattr(c, "seq_lemmas", False) and getattr(ip, "quant_depth", 0) == 0:
+        sub = named_subseq(ip.st, cur, a, b - a, sub)
+    ip.st.heap[(ref, "seq")] = sub
     return VSeq(ref, s.elem)
+
+
+def named_subseq(st, cur, a, ln, sub):
+    """SubSeq(cur, a, ln) as a named value with its element-wise description, for 0 <= a and the slice inside cur (the
+    only case the lemma speaks about); theorems of SubSeq the solvers do not find under quantifiers"""
+    res = st.fresh("slice", cur.sort())
+    j = z3.Int(st.fresh_name("j"))
+    st.assume(res == sub)
+    inside = z3.And(a >= 0, ln >= 0, a + ln <= z3.Length(cur))
+    st.assume(z3.Implies(inside, z3.Length(res) == ln))
+    st.assume(z3.Implies(inside, z3.ForAll([j], z3.Implies(z3.And(j >= 0, j < ln), res[j] == cur[a + j]), patterns=[res[j]])))
+    st.assume(z3.Implies(inside, z3.ForAll([j], z3.Implies(z3.And(j >= a, j < a + ln), cur[j] == res[j - a]), patterns=[cur[j]])))
+    return res
+
+
+def named_append(st, cur, xt, new):
+    s2 = st.fresh("appended", cur.sort())
+    i = z3.Int(st.fresh_name("i"))
+    st.assume(s2 == new)
+    st.assume(z3.Length(s2) == z3.Length(cur) + 1)
+    st.assume(s2[z3.Length(cur)] == xt)
+    st.assume(z3.ForAll([i], z3.Implies(z3.And(i >= 0, i < z3.Length(cur)), s2[i] == cur[i]), patterns=[s2[i]]))
+    return s2
 
 
 def arr_getitem(ip, a, idx):
